@@ -47,7 +47,13 @@ class Tree:
         if self.patch:
             r = sh(["git", "-C", self.dir, "apply", str(self.patch)])
             if r.returncode:
-                raise RuntimeError("patch does not apply: " + r.stderr)
+                # the tree has moved on (later fix: commits touched neighbouring lines): 3-way merge on the blobs
+                r3 = sh(["git", "-C", self.dir, "apply", "-3", str(self.patch)])
+                unmerged = sh(["git", "-C", self.dir, "diff", "--name-only", "--diff-filter=U"]).stdout.strip()
+                if r3.returncode or unmerged:
+                    self.__exit__()
+                    raise RuntimeError("patch does not apply: " + r.stderr + r3.stderr)
+                sh(["git", "-C", self.dir, "reset", "-q"])
         return self.dir
 
     def __exit__(self, *a):
@@ -105,7 +111,11 @@ def main():
                 continue
             meta = json.loads((d / "meta.json").read_text())
             ids = args[1:] or [meta["property"]]
-            r = run(d, ids, in_repo)
+            try:
+                r = run(d, ids, in_repo)
+            except RuntimeError as e:
+                print(d.name, "ERROR", str(e)[:200], flush=True)
+                continue
             rows.append((d.name, {k: v["rc"] for k, v in r.items()}))
             print(d.name, {k: v["rc"] for k, v in r.items()}, flush=True)
     else:
